@@ -43,10 +43,11 @@ void vp_reader()
     }
     vp_gset(2, seen);
     // every element that stayed in the list for the whole traversal was visited (the ghost is set before erase() begins)
-    if (!(seen & 1)) vp_assert(vp_g(3) == 10, 1202);
-    if (!(seen & 2)) vp_assert(vp_g(3) == 20, 1203);
+    // (ghost 3: element the first writer set out to erase, ghost 6: element a second eraser set out to erase)
+    if (!(seen & 1)) vp_assert(vp_g(3) == 10 || vp_g(6) == 10, 1202);
+    if (!(seen & 2)) vp_assert(vp_g(3) == 20 || vp_g(6) == 20, 1203);
 #if NINIT >= 3
-    if (!(seen & 4)) vp_assert(vp_g(3) == 30, 1204);
+    if (!(seen & 4)) vp_assert(vp_g(3) == 30 || vp_g(6) == 30, 1204);
 #endif
     vp_cover(0);
 }
